@@ -43,7 +43,7 @@ def errsched (args : List String) : String :=
         match mkSched progs order with
         | none => "err BadSched"
         | some sched =>
-          match errRun errInit sched with
+          match errRun LyModel.Generated.ERR_REC_INLINE errInit sched with
           | .error .stalePointer => "err Stale"
           | .ok s => " ".intercalate (["ok", toString s.tab.gen, toString s.tab.recs.length] ++ s.obs.map showObs)
       | _, _ => "err BadArgs"
